@@ -32,7 +32,7 @@ import struct
 import time
 
 import vloop
-from common import Coverage, Driver, hx, rng, unhx, violation
+from common import Coverage, Driver, coq_eval, hx, rng, unhx, violation
 from ref import findref
 
 HAP_TCP = "_hap._tcp.local."
@@ -73,7 +73,8 @@ def svc_args(idx, sn, variant):
         addrs = [socket.inet_aton("169.254.7.7"), socket.inet_pton(socket.AF_INET6, "fe80::1")]
     elif variant == "badint":
         pairs[3] = (b"s#", b"1x")
-    return ("dev%d.%s" % (idx, HAP_TCP)).encode(), HAP_TCP.encode(), addrs, port, txt_of(pairs)
+    # instance names as real accessories announce them: mixed case, with spaces
+    return ("Dev%d Living Room Lamp.%s" % (idx, HAP_TCP)).encode(), HAP_TCP.encode(), addrs, port, txt_of(pairs)
 
 
 def mfr_of(idx, sn, variant):
@@ -262,6 +263,7 @@ class Rig:
     def __init__(self, kind):
         self.kind = kind
         self.loaded = []
+        self.by_id = {}
 
     async def start(self, cache_for=None):
         from aiohomekit.characteristic_cache import CharacteristicCacheMemory
@@ -300,6 +302,11 @@ class Rig:
         for h in list(self.azc.zeroconf.listeners[0]._handlers):
             h(zeroconf=self.azc.zeroconf, service_type=info.type, name=info.name, state_change=ServiceStateChange.Added)
 
+    def removed_browser(self, info):
+        from zeroconf import ServiceStateChange
+        for h in list(self.azc.zeroconf.listeners[0]._handlers):
+            h(zeroconf=self.azc.zeroconf, service_type=info.type, name=info.name, state_change=ServiceStateChange.Removed)
+
     def adv_b(self, dev_ad):
         """through the detection callback registered with the scanner"""
         self.ble._scanner.cb(*dev_ad)
@@ -314,6 +321,7 @@ class Rig:
             data["AccessoryPairingID"] = pid
             p = self.ip.load_pairing(alias, data)
         self.loaded.append(p)
+        self.by_id[pid] = p
         return p
 
     def discoveries(self):
@@ -363,7 +371,7 @@ async def settle(loop):
 
 
 async def exec_schedule(loop, kind, events, objs):
-    """events: tuples  ("F",k,id,tau) ("A",sym) ("Ab",sym) ("C",k) ("Cq",k) ("T",delta) ("L",id,has_state).
+    """events: tuples  ("F",k,id,tau) ("A",sym) ("Ab",sym) ("C",k) ("Cq",k) ("T",delta) ("L",id,has_state) ("S",id).
     Returns the canonical result string."""
     from aiohomekit.exceptions import AccessoryNotFoundError
     rig = Rig(kind)
@@ -415,6 +423,16 @@ async def exec_schedule(loop, kind, events, objs):
             await settle(loop)
         elif op == "L":
             rig.load(ev[1])
+            await settle(loop)
+        elif op == "Rb":                      # browser: service removed (goodbye); pending resolve timer cancelled
+            try:
+                rig.removed_browser(objs[ev[1]])
+            except Exception as e:  # noqa
+                raised.append("%d:%s" % (idx, type(e).__name__))
+            await settle(loop)
+        elif op == "S":                       # pairing.shutdown(): irreversible, the pairing stays in controller.pairings
+            if ev[1] in rig.by_id:
+                await rig.by_id[ev[1]].shutdown()
             await settle(loop)
         for ctx in loop.errors[nerr:]:
             raised.append("%d:%s" % (idx, type(ctx.get("exception")).__name__))
@@ -498,6 +516,8 @@ def model_group(kind, ev):
             g = f"C.{ev[1]}"
         elif op == "T":
             g = f"T.{ev[1]}"
+        elif op in ("S", "Rb"):
+            g = "T.0"
         else:
             g = f"L.{hx(ev[1].encode())}.{1 if ev[2] else 0}"
         _tok_memo[key] = g
@@ -514,7 +534,9 @@ def run_model(drv, kind, scheds, cfgname=None, defs=None):
         lines = list(defs)
         for evs in scheds[i:i + 20000]:
             lines.append(head + " ".join([model_group(kind, ev) for ev in evs]))
-        out += drv._run(lines)[len(defs):]
+        ans = drv._run(lines)[len(defs):]
+        _xc_record_sched(lines[len(defs):], ans, defs)
+        out += ans
     return out
 
 
@@ -734,6 +756,7 @@ def sched_job(job):
     t0 = time.time()
     impl, eps = run_impl(kind, scheds, want_ep=True)
     t1 = time.time()
+    xc0 = len(_XC)
     model = run_model(Driver(exe, workers=1), kind, scheds)
     t2 = time.time()
     summary = dict(n=len(scheds), nontrivial=0, hist={}, problems={}, samples=[], t_impl=t1 - t0, t_model=t2 - t1,
@@ -770,6 +793,7 @@ def sched_job(job):
     if scheds:
         j = (hash(str(prefix)) % len(scheds))
         summary["samples"].append(dict(stream="sched", kind=kind, events=[list(e) for e in scheds[j]], impl=impl[j]))
+    summary["xc"] = _XC[xc0:]          # sampled (request, driver answer) pairs for the vm_compute cross-check
     return summary
 
 
@@ -790,6 +814,7 @@ def run_sched_stream(ctx, cov, viols, timing):
     with multiprocessing.get_context("fork").Pool(WORKERS) as pool:
         for (kind, pre, depth, _), s in zip(jobs, pool.imap(sched_job, jobs, chunksize=1)):
             tot[kind] += s["n"]
+            _XC.extend(s.get("xc", ()))
             cov.evaluations += s["n"]
             cov._distinct.update(range(cov.extra.get("_next", 0), cov.extra.get("_next", 0) + s["nontrivial"]))
             cov.extra["_next"] = cov.extra.get("_next", 0) + s["nontrivial"]
@@ -864,6 +889,18 @@ def shrink_schedule(events, kind, key, exe):
 
 
 # ================================================================ case-variant / browser-path / pairing schedules
+def pairing_situations(pid):
+    """label -> events that bring the controller into that situation for id pid.  A shut-down pairing
+    (pairing.shutdown(), e.g. after the pairing was removed) stays in controller.pairings."""
+    return [("none", []), ("state", [("L", pid, True)]), ("nostate", [("L", pid, False)]),
+            ("state-shutdown", [("L", pid, True), ("S", pid)]), ("nostate-shutdown", [("L", pid, False), ("S", pid)])]
+
+
+def pairing_label(evs):
+    lab = next(("state" if e[2] else "nostate" for e in evs if e[0] == "L"), "none")
+    return lab + ("-shutdown" if any(e[0] == "S" for e in evs) else "")
+
+
 def extra_schedules():
     """directed schedules outside the enumeration alphabet: id case variants on every controller, the
     browser path of the mDNS controller, the three pairing situations"""
@@ -898,14 +935,29 @@ def extra_schedules():
             if kind == "mdns":
                 out.append((kind, [("F", 1, wid, 8192)] + [("Ab", a) for a in h] + [("T", 16384)]))
                 out.append((kind, [("Ab", a) for a in h[:-1]] + [("F", 1, wid, 8192), ("Ab", h[-1]), ("T", 16384)]))
+    # browser path with goodbye packets in between
+    for a, b in (("m0n1", "m0v1"), ("m0l2", "m0p2"), ("m0v1", "m0p1"), ("m0v1", "m0v3"), ("m0i0", "m0v1")):
+        out.append(("mdns", [("F", 1, X, 16384), ("Ab", a), ("Rb", a), ("Ab", b), ("T", 32768)]))
+        out.append(("mdns", [("Ab", a), ("Rb", a), ("F", 1, X.upper(), 16384), ("Ab", b), ("Rb", b), ("T", 32768)]))
+        out.append(("mdns", [("F", 1, X, 16384), ("F", 2, Y, 16384), ("Ab", a), ("Ab", "m1v4"), ("Ab", b), ("Ab", "m1p4"), ("T", 32768)]))
+    # histories under every pairing situation (incl. a pairing that was shut down and is still listed)
+    for kind, hists, w in (("mdns", hist_m[:6], X.upper()), ("ble", hist_b, X)):
+        for h in hists:
+            for lab, load in pairing_situations(X):
+                if lab == "none":
+                    continue
+                advs = [("A", a) for a in h]
+                out.append((kind, load + [("F", 1, w, 16)] + advs + [("T", FLUSH)]))
+                out.append((kind, advs[:1] + load + [("F", 1, w, 16), ("F", 2, Y, 8)] + advs[1:] + [("T", FLUSH)]))
+                out.append((kind, [("F", 1, w, 16), ("L", X, "state" in lab and "nostate" not in lab)] + advs[:1]
+                            + ([("S", X)] if "shutdown" in lab else []) + advs[1:] + [("T", FLUSH)]))
     for sym in ("m0v1", "m0v2", "m1v3", "m0i0", "m0i1", "m0i2"):
         out.append(("mdns", [("F", 1, X, 4096), ("Ab", sym), ("T", 8192)]))
         out.append(("mdns", [("Ab", sym), ("F", 1, X.upper(), 8), ("T", FLUSH)]))
         out.append(("mdns", [("F", 1, X, 1024), ("Ab", sym), ("T", 8192)]))     # expires before the record is resolved
     for kind, syms in (("mdns", [s for s in CAT if s[0] == "m" and s[1] == "0"]), ("ble", [s for s in CAT if s[0] == "b" and s[1] == "0"])):
         for sym in syms:
-            for pairing in (None, True, False):
-                load = [] if pairing is None else [("L", X, pairing)]
+            for _, load in pairing_situations(X):
                 out.append((kind, load + [("A", sym), ("F", 1, X, 8), ("T", FLUSH)]))
                 out.append((kind, load + [("F", 1, X, 8), ("A", sym), ("A", sym), ("T", FLUSH)]))
                 out.append((kind, [("A", sym)] + load + [("F", 1, X, 8), ("Cq", 1), ("A", sym), ("T", FLUSH)]))
@@ -924,7 +976,7 @@ def run_extra_stream(ctx, cov, viols):
         impl, eps = run_impl(kind, scheds, want_ep=True)
         model = run_model(drv, kind, scheds)
         for evs, i, m, ep in zip(scheds, impl, model, eps):
-            pairing = next(("state" if e[2] else "nostate" for e in evs if e[0] == "L"), "none")
+            pairing = pairing_label(evs)
             probs = classify(kind, evs, i, m, ep)
             cov.case("x" + kind + repr(evs), True,
                      sample=dict(stream="extra", kind=kind, events=[list(e) for e in evs], impl=i) if cov.evaluations % 97 == 0 else None,
@@ -1183,7 +1235,7 @@ def gen_pnot(tier, r):
 
 def run_parse_stream(ctx, cov, viols):
     tier, seed = ctx["tier"], ctx["seed"]
-    drv = Driver(ctx["driver"])
+    drv = _RecDriver(ctx["driver"])       # a Driver that also keeps a small sample of (request, answer) pairs
     seen = set()
 
     def report(which, tag, case_repr, impl, model, exp, strict):
@@ -1323,16 +1375,14 @@ def run_callback_stream(ctx, cov, viols):
         for kind, tr in (("ble", "b"), ("mdns", "m")):
             scheds, meta = [], []
             for sym in [s for s in cat if s[0] == tr]:
-                for pairing in (None, True, False):
-                    load = [] if pairing is None else [("L", X, pairing)]
+                for ptxt, load in pairing_situations(X):
                     ops = ["A"] if kind == "ble" else ["A", "Ab"]
                     for op in ops:
                         scheds.append(load + [("F", 1, X, 4096), (op, sym), ("T", 8192)])
-                        meta.append((sym, pairing, op))
+                        meta.append((sym, ptxt, op))
             impl = run_impl(kind, scheds, objs)
             model = run_model(drv, kind, scheds, defs=defs)
-            for evs, (sym, pairing, op), i, m in zip(scheds, meta, impl, model):
-                ptxt = {None: "none", True: "state", False: "nostate"}[pairing]
+            for evs, (sym, ptxt, op), i, m in zip(scheds, meta, impl, model):
                 raised = i.split("|")[1]
                 cov.case("cb" + kind + sym + ptxt + op, True,
                          sample=dict(stream="callback", kind=kind, pairing=ptxt, path=op, adv=_adv_repr(sym), impl=i) if cov.evaluations % 211 == 0 else None,
@@ -1361,6 +1411,353 @@ def run_callback_stream(ctx, cov, viols):
         _impl_cache.update(saved_objs)
 
 
+# ================================================================ extraction cross-check (vm_compute)
+_XC = []      # (request line, driver answer, {symbol: defm/defb line}) sampled from the run's real request stream
+
+
+def _xc_class(ans):
+    w = ans.split(" ")[0]
+    return w if w in ("ok", "err", "crash", "fuel", "some", "none") else "hex"
+
+
+def _xc_record_parse(lines, answers):
+    """per batch: the shortest request of every (request kind, answer class), plus the elements at 1/2 and 3/4"""
+    best = {}
+    for n, (l, a) in enumerate(zip(lines, answers)):
+        key = (l.split(" ", 1)[0], _xc_class(a))
+        if key not in best or len(l) < len(lines[best[key]]):
+            best[key] = n
+    n = len(lines)
+    for j in sorted(set(best.values()) | ({n // 2, 3 * n // 4} if n else set())):
+        if len(lines[j]) < 3000:
+            _XC.append((lines[j], answers[j], {}))
+
+
+def _xc_record_sched(lines, answers, defs):
+    """per driver call: the first, middle and last schedule, with the catalogue lines of the symbols they use"""
+    n = len(lines)
+    if not n:
+        return
+    dmap = {d.split(" ", 2)[1]: d for d in defs}
+    for j in sorted({0, n // 2, n - 1}):
+        syms = {t.split(".")[1] for g in lines[j].split(" ")[2:] for t in g.split("+") if t[0] == "A"}
+        if len(lines[j]) < 3000 and all(y in dmap for y in syms):
+            _XC.append((lines[j], answers[j], {y: dmap[y] for y in syms}))
+
+
+class _RecDriver(Driver):
+    def batch(self, lines):
+        lines = list(lines)
+        ans = Driver.batch(self, lines)
+        _xc_record_parse(lines, ans)
+        return ans
+
+
+def xc_sample(recorded, quota=None):
+    """deterministic choice of <= 30 recorded pairs: per parse request kind a few with different answer classes,
+    and schedules chosen greedily so that every (configuration, token kind / outcome kind / raised / private
+    catalogue) combination that was recorded is covered"""
+    quota = quota or dict(psvc=4, padv=3, pnot=3, int=4, rtxt=2, radv=2, sched=12)
+    uniq = sorted({(r, a): (r, a, d) for r, a, d in recorded}.values(), key=lambda x: (len(x[0]), x[0], x[1]))
+    out = []
+    for kind in ("psvc", "padv", "pnot", "int", "rtxt", "radv"):
+        cands = [x for x in uniq if x[0].split(" ", 1)[0] == kind]
+        chosen, classes = [], set()
+        for x in cands:                                   # one per answer class first (shortest) ...
+            if _xc_class(x[1]) not in classes and len(chosen) < quota[kind]:
+                classes.add(_xc_class(x[1]))
+                chosen.append(x)
+        rest = [x for x in cands if x not in chosen]
+        while rest and len(chosen) < quota[kind]:         # ... then spread over the remaining ones
+            chosen.append(rest.pop((len(rest) * 2) // 3))
+        out += chosen
+    cands = [x for x in uniq if x[0].startswith("sched ")]
+
+    def feats(x):
+        req, ans, _ = x
+        cfg = req.split(" ")[1]
+        f = {(cfg, t.split(".")[0]) for g in req.split(" ")[2:] for t in g.split("+")}
+        f |= {(cfg, "o:" + c.split("=")[1].split(":")[0].split("(")[0]) for c in ans.split("|")[0].split(";") if c}
+        if ans.split("|")[1]:
+            f.add((cfg, "raised"))
+        if "9c" in req:
+            f.add((cfg, "private-catalogue"))
+        if "T.2048+A." in req:
+            f.add((cfg, "browser-path"))
+        return f
+    fs = [feats(x) for x in cands]
+    covered, chosen = set(), []
+    while len(chosen) < quota["sched"] and cands:
+        gain = [len(f - covered) for f in fs]
+        j = max(range(len(cands)), key=lambda i: (gain[i], -i))
+        if gain[j] == 0 and chosen:
+            # everything covered: fill up with the longest remaining schedules, one per configuration in turn
+            cfgs = [c[0].split(" ")[1] for c in chosen]
+            order = sorted(range(len(cands)), key=lambda i: (cfgs.count(cands[i][0].split(" ")[1]), -len(cands[i][0]), cands[i][0]))
+            j = order[0]
+        covered |= fs[j]
+        chosen.append(cands.pop(j))
+        fs.pop(j)
+    return [(r, a, d) for r, a, d in out + chosen]
+
+
+_XC_PRELUDE = r"""From Coq Require Import List NArith ZArith.
+From AHK Require Import Lib.Res Lib.ByteStr Model.Find.
+Import ListNotations.
+Open Scope Z_scope.
+Definition zb (b : list N) : list Z := Z.of_nat (length b) :: map Z.of_N b.
+Definition za (a : addr) : list Z := match a with V4 b => 4 :: zb b | V6 b => 6 :: zb b end.
+Definition zres {A : Type} (f : A -> list Z) (r : res perr A) : list Z :=
+  match r with Ok x => 0 :: f x | Err ValueError => [1] | Crash => [2] | OutOfFuel => [3] end.
+Definition show_svc (h : hksvc) : list Z :=
+  zb (hs_name h) ++ zb (hs_id h) ++ zb (hs_model h) ++ [hs_cn h; hs_sn h; hs_ff h; hs_sf h; hs_ci h]
+  ++ zb (hs_pv h) ++ zb (hs_type h) ++ za (hs_address h)
+  ++ Z.of_nat (length (hs_addresses h)) :: flat_map za (hs_addresses h) ++ [Z.of_N (hs_port h)].
+Definition show_adv (a : hkadv) : list Z :=
+  zb (ha_id a) ++ [Z.of_N (ha_cat a); Z.of_N (ha_sf a); Z.of_N (ha_cn a); Z.of_N (ha_sn a)] ++ zb (ha_sh a).
+Definition show_not (n : hknotif) : list Z := zb (hn_id n) ++ zb (hn_advid n) ++ zb (hn_payload n).
+Definition show_int (o : option Z) : list Z := match o with Some z => [1; z] | None => [0] end.
+Inductive tok :=
+| TF (k : nat) (i : list N) (tau : N) | TAm (si : svcinfo) | TAb (md : option (list N))
+| TAM (si : svcinfo) | TAB (md : option (list N)) | TC (k : nat) | TT (d : N) | TL (i : list N) (b : bool).
+Definition tstep (c : cfg) (s : st) (t : tok) : st * list out :=
+  match t with
+  | TF k i tau => step c s (Find k i tau)
+  | TAm si => mdns_callback c s si
+  | TAb md => ble_callback c s md
+  | TC k => step c s (Cancel k)
+  | TT d => step c s (Advance d)
+  | TL i b => step c s (Load i b)
+  | _ => (s, [])
+  end.
+Definition atstep (a : agg) (t : tok) : agg * list out :=
+  match t with
+  | TF k i tau => astep a (AFind k i tau)
+  | TAM si => astep a (AAdvM (match from_service_info si with Ok h => Some (svc_descr h) | _ => None end))
+  | TAB md => astep a (AAdvB (match md with
+                              | Some (b :: _) => if (b =? 6)%N
+                                                 then match adv_parse md with Ok x => Some (adv_descr x) | _ => None end
+                                                 else None
+                              | _ => None end))
+  | TC k => astep a (ACancel k)
+  | TT d => astep a (AAdvance d)
+  | _ => (a, [])
+  end.
+Definition show_out (gi : Z) (o : out) : list Z :=
+  match o with
+  | Raised => [gi; 3]
+  | Done k (Found d) t => [gi; 0; Z.of_nat k; Z.of_N t; d_cn d; d_sn d] ++ zb (d_id d)
+  | Done k NotFound t => [gi; 1; Z.of_nat k; Z.of_N t]
+  | Done k Cancelled t => [gi; 2; Z.of_nat k; Z.of_N t]
+  end.
+Fixpoint tfold {X : Type} (f : X -> tok -> X * list out) (s : X) (gi : Z) (g : list tok) : X * list Z :=
+  match g with
+  | [] => (s, [])
+  | t :: r => let '(s1, o1) := f s t in let '(s2, o2) := tfold f s1 gi r in (s2, flat_map (show_out gi) o1 ++ o2)
+  end.
+Fixpoint gfold {X : Type} (f : X -> tok -> X * list out) (s : X) (gi : Z) (gs : list (list tok)) : X * list Z :=
+  match gs with
+  | [] => (s, [])
+  | g :: r => let '(s1, o1) := tfold f s gi g in let '(s2, o2) := gfold f s1 (gi + 1) r in (s2, o1 ++ o2)
+  end.
+Definition zdiscs (l : list (id * descr)) : list Z :=
+  Z.of_nat (length l) :: flat_map (fun kd => zb (fst kd) ++ [d_cn (snd kd); d_sn (snd kd)]) l.
+Definition show_single (c : cfg) (gs : list (list tok)) : list Z :=
+  let '(s, o) := gfold (tstep c) st0 0 gs in o ++ [-1] ++ zdiscs (discs s).
+Definition show_agg (gs : list (list tok)) : list Z :=
+  let '(a, o) := gfold atstep agg0 0 gs in o ++ [-1] ++ zdiscs (discs (a_ip a)) ++ zdiscs (discs (a_ble a)).
+"""
+
+
+def _gq_bytes(b):
+    return "(@nil N)" if not b else "[" + "; ".join(str(x) for x in bytes(b)) + "]%N"
+
+
+def _gq_hex(h):
+    return _gq_bytes(unhx(h))
+
+
+def _gq_addrs(s):
+    if s == "-":
+        return "(@nil addr)"
+    return "[" + "; ".join(("V4 " if t.split(":")[0] == "4" else "V6 ") + _gq_hex(t.split(":")[1] or "-") for t in s.split(",")) + "]"
+
+
+def _gq_svc(name, ty, addrs, port, txt):
+    return (f"{{| si_name := {_gq_hex(name)}; si_type := {_gq_hex(ty)}; si_addrs := {_gq_addrs(addrs)}; "
+            f"si_port := {int(port)}%N; si_text := {_gq_hex(txt)} |}}")
+
+
+def _gq_md(h):
+    return "(@None (list N))" if h == "none" else f"(Some {_gq_hex(h)})"
+
+
+def xc_term(n, req, defs):
+    """request line -> (definitions needed, Gallina term of type list Z) calling what ocaml/drv_c19.ml calls"""
+    w = req.split(" ")
+    if w[0] == "psvc":
+        return [], f"zres show_svc (from_service_info {_gq_svc(*w[1:6])})"
+    if w[0] == "padv":
+        return [], f"zres show_adv (adv_parse {_gq_md(w[1])})"
+    if w[0] == "pnot":
+        return [], f"zres show_not (notif_parse {_gq_md(w[1])})"
+    if w[0] == "int":
+        return [], f"show_int (py_int {_gq_hex(w[1])})"
+    if w[0] == "rtxt":
+        u, i, md, cn, sn, ff, sf, ci, pv = w[1:]
+        return [], (f"zb (render_txt {'upper' if u == 'u' else '(fun x => x)'} {{| f_id := {_gq_hex(i)}; f_md := {_gq_hex(md)}; "
+                    f"f_cn := {int(cn)}%N; f_sn := {int(sn)}%N; f_ff := {int(ff)}%N; f_sf := {int(sf)}%N; f_ci := {int(ci)}%N; "
+                    f"f_pv := {_gq_hex(pv)} |}})")
+    if w[0] == "radv":
+        x, sf, dev, cat, sn, cn, cv, sh = w[1:]
+        return [], (f"zb (render_adv {{| af_x := {int(x)}%N; af_sf := {int(sf)}%N; af_dev := {_gq_hex(dev)}; af_cat := {int(cat)}%N; "
+                    f"af_sn := {int(sn)}%N; af_cn := {int(cn)}%N; af_cv := {int(cv)}%N; af_sh := {_gq_hex(sh)} |}})")
+    assert w[0] == "sched", req
+    cfg = w[1]
+    dls = []
+    for sym in sorted(defs):
+        d = defs[sym].split(" ")
+        if d[0] == "defm":
+            dls.append(f"Definition x{n}_{sym} : svcinfo := {_gq_svc(*d[2:7])}.")
+        else:
+            dls.append(f"Definition x{n}_{sym} : option (list N) := {_gq_md(d[2])}.")
+    groups = []
+    for g in w[2:]:
+        toks = []
+        for t in g.split("+"):
+            p = t.split(".")
+            if p[0] == "F":
+                toks.append(f"TF {int(p[1])}%nat {_gq_hex(p[2])} {int(p[3])}%N")
+            elif p[0] == "A":          # the driver looks the symbol up in the table that belongs to the configuration's kind
+                is_m = defs[p[1]].startswith("defm")
+                assert is_m == (cfg == "mdns"), req
+                toks.append(f"{'TAm' if is_m else 'TAb'} x{n}_{p[1]}")
+            elif p[0] in ("AM", "AB"):
+                assert defs[p[1]].startswith("defm") == (p[0] == "AM") and cfg == "agg", req
+                toks.append(f"T{p[0]} x{n}_{p[1]}")
+            elif p[0] == "C":
+                toks.append(f"TC {int(p[1])}%nat")
+            elif p[0] == "T":
+                toks.append(f"TT {int(p[1])}%N")
+            elif p[0] == "L" and cfg != "agg":
+                toks.append(f"TL {_gq_hex(p[1])} {'true' if p[2] == '1' else 'false'}")
+            else:
+                raise AssertionError(req)
+        groups.append("[" + "; ".join(toks) + "]")
+    gl = "[" + "; ".join(groups) + "]"
+    if cfg == "agg":
+        return dls, f"show_agg {gl}"
+    return dls, f"show_single {dict(mdns='mdns_cfg', ble='ble_cfg', bleorig='ble_orig_cfg', blenoguard='ble_noguard_cfg')[cfg]} {gl}"
+
+
+class _XcReader:
+    def __init__(self, nums):
+        self.n, self.i = nums, 0
+
+    def int(self):
+        self.i += 1
+        return self.n[self.i - 1]
+
+    def hex(self):
+        k = self.int()
+        b = bytes(self.n[self.i:self.i + k])
+        assert len(b) == k
+        self.i += k
+        return hx(b)
+
+    def addr(self):
+        return "%d:" % self.int() + self.hex()
+
+    def res(self):
+        c = self.int()
+        return None if c == 0 else {1: "err value", 2: "crash", 3: "fuel"}[c]
+
+    def discs(self):
+        cells = []
+        for _ in range(self.int()):
+            k = self.hex()
+            cells.append("%s:%d:%d" % (k, self.int(), self.int()))
+        return ",".join(sorted(cells)) or "-"
+
+
+def xc_render(req, nums):
+    """the list of numbers Coq computed -> the answer line the driver must have printed (mirrors the printing
+    code of ocaml/drv_c19.ml)"""
+    r = _XcReader(nums)
+    kind = req.split(" ", 1)[0]
+    if kind == "psvc":
+        s = r.res()
+        if s is None:
+            s = "ok name=%s id=%s md=%s" % (r.hex(), r.hex(), r.hex())
+            s += " cn=%d sn=%d ff=%d sf=%d ci=%d" % (r.int(), r.int(), r.int(), r.int(), r.int())
+            s += " pv=%s type=%s addr=%s" % (r.hex(), r.hex(), r.addr())
+            s += " addrs=%s" % (",".join([r.addr() for _ in range(r.int())]) or "-")
+            s += " port=%d" % r.int()
+    elif kind == "padv":
+        s = r.res()
+        if s is None:
+            s = "ok id=%s" % r.hex() + " cat=%d sf=%d cn=%d sn=%d" % (r.int(), r.int(), r.int(), r.int()) + " sh=%s" % r.hex()
+    elif kind == "pnot":
+        s = r.res()
+        if s is None:
+            s = "ok id=%s advid=%s payload=%s" % (r.hex(), r.hex(), r.hex())
+    elif kind == "int":
+        s = "some %d" % r.int() if r.int() == 1 else "none"
+    elif kind in ("rtxt", "radv"):
+        s = r.hex()
+    else:
+        cells, raised = {}, []
+        while True:
+            gi = r.int()
+            if gi < 0:
+                break
+            code = r.int()
+            if code == 3:
+                if gi not in raised:
+                    raised.append(gi)
+                continue
+            k, t = r.int(), r.int()
+            if code == 0:
+                cn, sn = r.int(), r.int()
+                c = "found:%s:%d:%d:%d" % (r.hex(), cn, sn, t)
+            else:
+                c = "%s:%d" % ({1: "notfound", 2: "cancelled"}[code], t)
+            cells[k] = "twice(%s,%s)" % (cells[k], c) if k in cells else c
+        d = r.discs()
+        if req.split(" ")[1] == "agg":
+            d += " / " + r.discs()
+        s = ";".join("%d=%s" % (k, cells[k]) for k in sorted(cells)) + "|" + ",".join(str(g) for g in raised) + "|" + d
+    assert r.i == len(nums), "trailing numbers"
+    return s
+
+
+def vm_crosscheck(ctx, sample):
+    """Evaluate the sampled requests with vm_compute inside Coq (calling the Gallina functions that
+    ocaml/drv_c19.ml calls on the extracted code) and compare with the answers of the extracted driver:
+    takes extraction + the OCaml glue out of the single-point-of-trust position.
+    sample: [(request line, driver answer, {symbol: defm/defb line})].  -> (requests, [(request, driver, coq)])"""
+    import re
+    body = [_XC_PRELUDE]
+    for n, (req, _, defs) in enumerate(sample):
+        dls, term = xc_term(n, req, defs)
+        body += dls
+        body.append(f"Eval vm_compute in ({term}).")
+    out = coq_eval(ctx["verif"], "C19", "crosscheck", "\n".join(body) + "\n", timeout=300)
+    blocks = re.split(r"(?m)^\s*= ", out)[1:]
+    bad = []
+    if len(blocks) != len(sample):
+        return len(sample), [(req, ans, "coqc printed %d values for %d requests" % (len(blocks), len(sample))) for req, ans, _ in sample]
+    for (req, ans, _), blk in zip(sample, blocks):
+        val = re.split(r"\n\s*: ", blk)[0]
+        try:
+            got = xc_render(req, [int(x) for x in re.findall(r"-?\d+", val)])
+        except Exception as e:  # noqa
+            got = "undecodable (%s): %s" % (type(e).__name__, " ".join(val.split())[:200])
+        if got != ans:
+            bad.append((req, ans, got))
+    return len(sample), bad
+
+
 # ================================================================ run
 def run(ctx):
     cov = Coverage("sched: distinct schedule with at least one waiting caller; extra/callback: distinct directed schedule; "
@@ -1369,6 +1766,7 @@ def run(ctx):
     t0 = time.time()
     if ctx.get("replay"):
         return replay(ctx)
+    del _XC[:]
     run_parse_stream(ctx, cov, viols)
     timing["parse_wall"] = round(time.time() - t0, 1)
     t1 = time.time()
@@ -1379,6 +1777,22 @@ def run(ctx):
     for k in ("sched_impl_cpu", "sched_model_cpu"):
         timing[k] = round(timing.get(k, 0), 1)
     cov.extra.setdefault("disagreements_checked", 0)
+    # ---- kernel cross-check of the extracted driver on a sample of the requests of this run
+    t2 = time.time()
+    sample = xc_sample(_XC)
+    nreq, bad = vm_crosscheck(ctx, sample)
+    kinds = {}
+    for req, _, _ in sample:
+        k = " ".join(req.split(" ")[:2]) if req.startswith("sched ") else req.split(" ")[0]
+        kinds[k] = kinds.get(k, 0) + 1
+    cov.extra["vm_compute_crosscheck"] = {"requests": nreq, "disagreements": len(bad), "by_kind": kinds}
+    if bad:
+        viols.append(violation("extraction-vs-vm_compute",
+                               f"extracted driver and vm_compute disagree on {len(bad)} of {nreq} sampled requests, e.g. {bad[0][0][:120]}: "
+                               f"driver {bad[0][1][:120]} / Coq {bad[0][2][:120]}", False,
+                               cases=[dict(request=r, driver=a, coq=g) for r, a, g in bad[:5]],
+                               broken="extraction / ocaml/drv_c19.ml glue <-> Model/Find.v evaluated by the kernel"))
+    timing["vm_crosscheck_wall"] = round(time.time() - t2, 1)
     cov.extra["timing_s"] = timing
     # one violation per key (the first = smallest found), with the number of cases behind it
     first, count = {}, {}
